@@ -7,7 +7,9 @@ import N0Verif.Proofs.TlvGenEq
 Only property statements live here; helper lemmas are in `Proofs/Tlv.lean`, `Proofs/Fwf.lean`.
 The models follow the code with the fixes C16-a (`parse_tlv` rejects a negative length),
 C16-b (`load_fwf` appends a tuple to `failed_rows`) and C16-c (`generate_tlv` refuses a
-`len_padding` that is neither `'0'` nor an ASCII blank) applied.
+`len_padding` that `int()` does not read through: probe `int(pad + pad + '1') == 1`) applied.
+Paddings are in the scope of the `int()` model (`padInScope`: Latin-1 or a listed blank); a
+Unicode decimal zero such as U+0660, which the real `int()` reads through, is outside it.
 -/
 namespace N0.C16
 open N0 N0.Py N0.Tlv N0.Fwf
@@ -176,7 +178,13 @@ theorem C16_pyint_reads_padded (ll : Nat) (lp : Char) (hlp : lp = '0' ∨ isIntS
   · subst h; exact pyInt_zero_padded _ n
   · exact pyInt_blank_padded _ n lp h
 
-/-- … in particular with every padding `generate_tlv` accepts (`'0'` and the ASCII blanks) -/
+/-- **the probe of `generate_tlv` is exact**: `int(pad + pad + '1') == 1` holds exactly for `'0'`
+and the characters `int()` strips — nothing that round-trips is refused, nothing that is
+accepted fails to round-trip (signs, `_`, other digits, `\x1c`..`\x1f`, letters fail it) -/
+theorem C16_tlv_padding_probe_exact (lp : Char) :
+    lenPadOk lp = true ↔ (lp = '0' ∨ isIntSpace lp = true) := lenPadOk_iff lp
+
+/-- … in particular `int()` reads the field with every padding `generate_tlv` accepts -/
 theorem C16_pyint_reads_accepted (ll : Nat) (lp : Char) (hp : lenPadOk lp = true) :
     IntReads pyInt ll lp :=
   C16_pyint_reads_padded ll lp (lenPadOk_reads hp)
@@ -193,7 +201,8 @@ theorem C16_tlv_roundtrip_pyint (tl ll : Nat) (tp lp : Char) (d : List (Str × S
   C16_tlv_roundtrip pyInt tl ll tp lp (C16_pyint_reads_accepted ll lp) d g hgen
 
 /-- **C16 (acceptance).**  Generation returns a text exactly when every tag and every length fits
-its field and `len_padding` is `'0'` or an ASCII blank. -/
+its field and `len_padding` passes the probe (`'0'` or a character `int()` strips:
+`C16_tlv_padding_probe_exact`). -/
 theorem C16_tlv_accepts (tl ll : Nat) (tp lp : Char) (d : List (Str × Str)) :
     (∃ g, generateTlv tl ll tp lp d = .ok g) ↔ (Fits tl ll d ∧ lenPadOk lp = true) := by
   constructor
@@ -237,8 +246,8 @@ theorem C16_tlv_refuses (tl ll : Nat) (tp lp : Char) (d : List (Str × Str)) :
     · exact Or.inl hf
 
 /-- **C16 (refusal of a padding that cannot be read back; finding C16-c, fixed).**  A
-`len_padding` that is neither `'0'` nor an ASCII blank is refused for every mapping and every
-width, before anything is written.  (Before the fix `generate_tlv({'A':'x'}, len_padding='x')`
+`len_padding` that fails the probe — neither `'0'` nor a character `int()` strips — is refused
+for every mapping and every width, before anything is written.  (Before the fix `generate_tlv({'A':'x'}, len_padding='x')`
 returned `'A xx1x'`, which `parse_tlv` cannot read: `int('xx1')` raises.) -/
 theorem C16_tlv_refuses_bad_padding (tl ll : Nat) (tp lp : Char) (hp : lenPadOk lp = false)
     (d : List (Str × Str)) : generateTlv tl ll tp lp d = .error .AssertionError :=
@@ -309,8 +318,12 @@ example : ¬ Fits 1 3 [("BB".toList, [])] := by
 example : generateTlv 2 3 ' ' '0' [("A".toList, "x".toList), ("BB".toList, "hello world".toList)]
     = .ok "A 001xBB011hello world".toList := by decide
 example : generateTlv 2 3 '_' '\t' [("A".toList, "x".toList)] = .ok "A_\t\t1x".toList := by decide
-example : lenPadOk '0' = true ∧ lenPadOk ' ' = true ∧ lenPadOk (Char.ofNat 11) = true ∧ lenPadOk 'x' = false
-    ∧ lenPadOk '-' = false ∧ lenPadOk '1' = false ∧ lenPadOk (Char.ofNat 0xA0) = false ∧ lenPadOk (Char.ofNat 0x1C) = false := by decide
+example : lenPadOk '0' = true ∧ lenPadOk ' ' = true ∧ lenPadOk (Char.ofNat 11) = true ∧ lenPadOk (Char.ofNat 0xA0) = true
+    ∧ lenPadOk (Char.ofNat 0x85) = true ∧ lenPadOk (Char.ofNat 0x2003) = true ∧ lenPadOk 'x' = false ∧ lenPadOk '-' = false
+    ∧ lenPadOk '+' = false ∧ lenPadOk '_' = false ∧ lenPadOk '1' = false ∧ lenPadOk (Char.ofNat 0x1C) = false := by decide
+example : generateTlv 2 3 ' ' (Char.ofNat 0xA0) [("A".toList, "x".toList)]
+    = .ok ['A', ' ', Char.ofNat 0xA0, Char.ofNat 0xA0, '1', 'x'] := by decide
+example : padInScope (Char.ofNat 0xA0) = true ∧ padInScope (Char.ofNat 0x2003) = true ∧ padInScope (Char.ofNat 0x660) = false := by decide
 
 /-! ## fixed-width rows -/
 
